@@ -62,27 +62,36 @@ c.finish(
     assumptions=[
         "every shown glyph has non-empty text, or its glyph name implies no text (Layout of the test fonts never "
         "produces empty text; with empty text SimpleTextMap falls back to the glyph name: text_derivable_emptytext_refuted)",
-        "glyph-name-to-text (names.ToUnicode) and the glyph names chosen by makeGlyphName are arbitrary functions in the theorems",
+        "glyph-name-to-text (names.ToUnicode), names.IsValid, the four base encoding tables and the glyph names chosen by "
+        "makeGlyphName are arbitrary functions in the theorems (hypotheses: chosen names are valid; \"\" and \"@\" are not "
+        "valid names; \"@\" implies no text)",
         "widths are compared with == (the model uses integers; NaN is outside the model)",
         "the CID list given to encodeCompositeWidths is strictly increasing with CIDs <= 65535 (slices.Sorted(maps.Keys))",
-        "characters outside a font's repertoire (shown as .notdef) are outside the property: only count, width and "
-        "writer/reader agreement are checked for them",
+        "characters outside a font's repertoire (shown as .notdef; for fonts encoded through a predefined CMap also glyphs "
+        "outside the character collection) are outside the property: only count, width and writer/reader agreement are checked",
+        "NewFromCMap: the guarded theorem fromcmap_first_wins assumes that no code occurs twice in cmap.All "
+        "(no child CMap re-maps a code of its parent); fromcmap_inverse_refuted is the unguarded statement",
     ],
     trusted=[
-        "hand-written Gallina models coq/C14/{SimpleEnc,CidEnc,Widths}.v of font/encoding/simpleenc, font/encoding/cidenc, "
-        "font/dict/metrics.go, graphics/extract/font-metrics.go, font/dict/encoding.go:SimpleTextMap, tied by trace refinement / correspondence",
-        "seehuhn.de/go/postscript/type1/names (glyph name <-> text), golang.org/x/text NFC/NFD, seehuhn.de/go/sfnt (layout, subsetting)",
+        "hand-written Gallina models coq/C14/{SimpleEnc,CidEnc,Widths,Encoding}.v of font/encoding/simpleenc, font/encoding/cidenc, "
+        "font/dict/metrics.go, graphics/extract/font-metrics.go, font/dict/encoding.go:SimpleTextMap, font/encoding/type1.go "
+        "(AsPDFSimple/ExtractSimple/AsPDFType3/ExtractType3), tied by trace refinement / correspondence",
+        "seehuhn.de/go/postscript/type1/names (glyph name <-> text, IsValid), golang.org/x/text NFC/NFD, seehuhn.de/go/sfnt (layout, subsetting), "
+        "cmap.File.All / cmap.Predefined (the (code, CID) pairs are data for the model)",
     ],
     partial=[
-        "only code allocation (simple, UTF-8, identity), the width tables and the ToUnicode-omission / reader-side text derivation "
-        "are under a theorem; font programs, subsetting, ToUnicode CMap embedding (C13), Encoding/Differences, glyph-name mapping, "
-        "the charcode codec (C12) and extraction are exercised end to end on the implementation, which is a test",
-        "fixed_no_sharing_refuted: the identity CID encoder (default of all composite embedders) gives one code per CID, so a "
-        "glyph shown with two different texts shares a code and reads back with the first text (finding "
-        "identity-cid-encoder:same-glyph-different-text); identity_consistent is the guarded statement",
-        "text_derivable carries the non-empty-text guard (text_derivable_emptytext_refuted shows it is needed)",
-        "NewFromCMap with predefined CMaps other than Identity-H/V is covered by fixed_first_wins for CMaps whose code->CID table "
-        "inverts the CID->code table, but only the identity instance is tied to the implementation",
+        "under a theorem: code allocation (simple, UTF-8, identity, NewFromCMap over an arbitrary CMap table), the width tables, "
+        "the /Encoding + /Differences round trip and the ToUnicode-omission / reader-side text derivation through the dictionary "
+        "actually written (text_derivable_dict); font programs, subsetting, ToUnicode CMap embedding (C13), CMap parsing and "
+        "lookup (C13), the charcode codec (C12), PDF name syntax (C01) and extraction are exercised end to end on the "
+        "implementation, which is a test",
+        "fixed_no_sharing_refuted: encoders with one code per CID (identity, NewFromCMap) give a glyph shown with two different "
+        "texts a single code (finding identity-cid-encoder:same-glyph-different-text); identity_consistent is the guarded statement",
+        "fromcmap_inverse_refuted: NewFromCMap keeps, for a CID, a code which a child CMap re-maps to another CID (finding "
+        "cidenc-fromcmap:code-remapped-by-child-cmap); fromcmap_first_wins (guarded) and fromcmap_sound_first_wins (repaired table) hold",
+        "finding cmap-with-parent:codespace-of-parent-ignored (reader-side codec of fonts whose CMap uses another CMap) lies in "
+        "code that is not modelled (dict.makeCodec); documents with such a font are attributed to it as a whole",
+        "text_derivable / text_derivable_dict carry the non-empty-text guard (text_derivable_emptytext_refuted shows it is needed)",
         "which free code Encode picks (base-encoding match, scoring), glyph naming (makeGlyphName) and the NFC single-rune code of "
         "the UTF-8 encoder are angelic / outside the model",
     ],
